@@ -1,7 +1,7 @@
 #!/bin/bash
 # Applies every patch in mutants/ to a scratch worktree (outside /repo and /verif), runs the quick tier of the checks that
 # are expected to catch it and writes mutants/RESULTS.md.  A mutant counts as caught when a targeted check exits 1 with a VIOLATION line.
-cd /verif
+cd "$(dirname "$0")/.."
 declare -A T
 T[revert_fix_01]="C01"; T[revert_fix_02]="C01 C02 C07"; T[revert_fix_03]="C01 C06 C08"; T[revert_fix_04]="C06 C08"; T[revert_fix_05]="C03 C05 C06"
 T[revert_fix_06]="C09"; T[revert_fix_07]="C10"; T[revert_fix_08]="C13"; T[revert_fix_09]="C14"; T[revert_fix_10]="C18"; T[revert_fix_11]="C18"
